@@ -453,6 +453,8 @@ def key(n):
             return str(n["cv"])
         return "sizeof(" + (n.get("of") or key(n.get("arg"))) + ")"
     if k == "lazy":
+        if "lz" in n:
+            return key(n["lz"])
         return "<lazy%s@%s>" % (n["op"], n["ln"])
     if k == "ret":
         return "return " + key(n.get("e"))
